@@ -98,10 +98,17 @@ def load_known():
         ln = ln.strip()
         if not ln or ln.startswith('#') or ln.startswith('fixed:'):
             continue
-        m = re.match(r'^known:\s+property=(\S+)\s+key=(\S+)\s+(.*)$', ln)
+        m = re.match(r'^known:\s+property=(\S+)\s+key=(\S+)\s+(?:sha=([0-9a-f]{64})\s+)?(.*)$', ln)
         if m:
-            res[(m.group(1), m.group(2))] = m.group(3)
+            res[(m.group(1), m.group(2))] = m.group(4)
+            if m.group(3):
+                KNOWN_SHA[(m.group(1), m.group(2))] = m.group(3)
     return res
+
+
+# sha256 of the source body of the function a finding was recorded for: the entry suppresses the failing obligation only while that body is
+# byte-identical; any later change to the function is reported again as a violation (a different violation must not hide behind the finding)
+KNOWN_SHA = {}
 
 
 # ---------------------------------------------------------------- evidence
@@ -139,11 +146,21 @@ class Report:
         self.undecided = []      # text
         self.known = load_known()
 
+    def is_known(self, key, sha=None):
+        if (self.prop, key) not in self.known:
+            return False
+        rec = KNOWN_SHA.get((self.prop, key))
+        return not (rec and sha and rec != sha)
+
     def violation(self, key, payload, no_input=False):
-        if (self.prop, key) in self.known:
+        if self.is_known(key, payload.get('source_sha256')):
             self.known_hits.append((key, self.known[(self.prop, key)]))
             return False
         payload = dict(payload)
+        if (self.prop, key) in self.known:
+            payload['note'] = ('KNOWN_FINDINGS.txt lists this obligation, but for another version of the function body (recorded sha256 %s, now %s): '
+                               'the function has changed since the finding was recorded, so the failure is reported again' % (
+                                   KNOWN_SHA.get((self.prop, key)), payload.get('source_sha256')))
         payload.setdefault('property', self.prop)
         payload.setdefault('obligation', key)
         path = write_replay(self.prop, key, payload)
